@@ -142,6 +142,8 @@ SYNTAX_FAULTS = [
     ("stray-paren", "( 1 ) )"),
     ("bad-param", "def g ( if ) 1"),
     ("two-idents", "foo bar"),
+    # lexical faults inside a literal that goes on over the line break
+    ("bad-hex-escape", "'abc\\xg ¶! '"), ("bad-hex-escape-dq", '"q\\x1 ¶! z"'),
 ]
 
 
@@ -191,7 +193,10 @@ class Layout:
         Returns the line of the first token."""
         line = self.line
         for t in s.split():
-            if t == "¶":
+            if t == "¶!":         # a forced break right behind the token
+                self.text = self.text.rstrip(" ") + self.nl
+                self.line += 1
+            elif t == "¶":
                 if self.ch.bool(0.75):
                     if self.ch.bool(0.2):
                         self.text += " # c"
